@@ -155,4 +155,67 @@ theorem skipLoop_sublist (seenT : List (Option Nat)) (seenM : List Str) (l : Lis
         · exact (ih _ _).cons_cons _
       · exact (ih _ _).cons_cons _
 
+/-- the key `_try_to_skip_duplicates` compares modules by -/
+def modKey (d : Nm) : Option Str := if d.type = "module".toList then d.modPath else none
+
+theorem skipLoop_treeIds_nodup (seenT : List (Option Nat)) (seenM : List Str) (l : List Nm) :
+    ((skipLoop seenT seenM l).filterMap (·.treeId)).Nodup ∧
+    ∀ t ∈ (skipLoop seenT seenM l).filterMap (·.treeId), some t ∉ seenT := by
+  induction l generalizing seenT seenM with
+  | nil => simp [skipLoop]
+  | cons d ds ih =>
+    have key : ∀ seenM', ¬ (d.treeId.isSome ∧ d.treeId ∈ seenT) →
+        ((d :: skipLoop (d.treeId :: seenT) seenM' ds).filterMap (·.treeId)).Nodup ∧
+        ∀ t ∈ (d :: skipLoop (d.treeId :: seenT) seenM' ds).filterMap (·.treeId), some t ∉ seenT := by
+      intro seenM' hcond
+      obtain ⟨i1, i2⟩ := ih (d.treeId :: seenT) seenM'
+      cases hd : d.treeId with
+      | none =>
+        rw [hd] at i1 i2
+        simp only [List.filterMap_cons, hd]
+        exact ⟨i1, fun t ht hm => i2 t ht (List.mem_cons_of_mem _ hm)⟩
+      | some t0 =>
+        rw [hd] at i1 i2
+        simp only [List.filterMap_cons, hd]
+        refine ⟨List.nodup_cons.mpr ⟨fun hm => i2 t0 hm List.mem_cons_self, i1⟩, fun t ht hm => ?_⟩
+        rcases List.mem_cons.mp ht with h | h
+        · subst h; exact hcond ⟨by simp [hd], by rw [hd]; exact hm⟩
+        · exact i2 t h (List.mem_cons_of_mem _ hm)
+    simp only [skipLoop]
+    split
+    · exact ih _ _
+    · rename_i hcond
+      split
+      · split
+        · exact ih _ _
+        · exact key _ hcond
+      · exact key _ hcond
+
+theorem skipLoop_modKeys_nodup (seenT : List (Option Nat)) (seenM : List Str) (l : List Nm) :
+    ((skipLoop seenT seenM l).filterMap modKey).Nodup ∧
+    ∀ p ∈ (skipLoop seenT seenM l).filterMap modKey, p ∉ seenM := by
+  induction l generalizing seenT seenM with
+  | nil => simp [skipLoop]
+  | cons d ds ih =>
+    simp only [skipLoop]
+    split
+    · exact ih _ _
+    · split
+      · rename_i p hp
+        have hk : modKey d = some p := hp
+        split
+        · exact ih _ _
+        · rename_i hnot
+          obtain ⟨i1, i2⟩ := ih (d.treeId :: seenT) (p :: seenM)
+          simp only [List.filterMap_cons, hk]
+          refine ⟨List.nodup_cons.mpr ⟨fun hm => i2 p hm List.mem_cons_self, i1⟩, fun q hq hm => ?_⟩
+          rcases List.mem_cons.mp hq with h | h
+          · subst h; exact hnot hm
+          · exact i2 q h (List.mem_cons_of_mem _ hm)
+      · rename_i hp
+        have hk : modKey d = none := hp
+        obtain ⟨i1, i2⟩ := ih (d.treeId :: seenT) seenM
+        simp only [List.filterMap_cons, hk]
+        exact ⟨i1, i2⟩
+
 end JediModel.Search
